@@ -162,6 +162,8 @@ class ProgGen:
 
     def step(self):
         rng = self.rng
+        if getattr(self, "pending", None):
+            return self.pending.pop(0)
         r = rng.random()
         if r < 0.82:
             return self.lookup()
@@ -198,6 +200,17 @@ class ProgGen:
                 line = f"{pname}- = 1e{rng.choice([2, 3, -2])} = {name}-"
                 self.table.add_prefix(pname, None, name, [])
             self.pool.extend([name, name + "s"] + [p + name for p in ps[:2]])
+            if kind < 0.35 and ps and rng.random() < 0.5:
+                # the spelling is looked up (and, as prefix + unit, registered) first, then defined, then looked up in
+                # another letter case without regard to case
+                first = self.lookup(name)
+                define = {"id": self.sid(), "k": "define", "line": line}
+                after = self.lookup(rng.choice([name.upper(), name.swapcase(), name.title(), name]))
+                after["via"] = rng.choice(["parse_unit_name", "get_name", "get_symbol", "parse_units"])
+                after.pop("s2", None), after.pop("e", None), after.pop("as_delta", None)
+                after["cs"] = False
+                self.pending = [define, after]
+                return first
             return {"id": self.sid(), "k": "define", "line": line}
         if r < 0.96 and self.spec["contexts"]:
             return {"id": self.sid(), "k": rng.choice(["ctx_on", "ctx_off"])}
